@@ -239,6 +239,8 @@ def run(ctx, prop=PROP):
         lines.append('type ' + line)
         lines.append('stype ' + line)
     hash_cases = hash_stream(ctx.rng, ctx.tier) if prop == 'C01' else []
+    if prop == 'C01':
+        packability_stream(ctx)
     n_prog_lines = len(lines)
     lines += [f'hash {algo} {msg.hex() or "-"}' for algo, msg in hash_cases]
     model = ctx.model(lines, driver=prop)
@@ -543,6 +545,41 @@ def boundary_programs(rng):
     progs.append(([P('NIL', P('timestamp')), P('MAP', [P('DROP'), P('PUSH', P('int'), I(0))]), P('PUSH', P('int'), I(1)), P('CONS')], [('list', ('int',))]))
     progs.append(([P('EMPTY_MAP', P('int'), P('nat')), P('MAP', [P('DROP'), P('PUSH', P('string'), {'string': ''})])], [('map', ('int',), ('string',))]))
     return [(code, st, gen_env(rng)) for code, st in progs]
+
+
+def packability_stream(ctx):
+    """outside the interpreter model (its PACK covers the plain value classes): a lambda is packable whatever its signature
+    mentions (operation, big_map, ticket, sapling_state, contract) — PACK / UNPACK / FAILWITH of such lambdas against bytes written
+    by hand from the binary Micheline format (`{ FAILWITH }` = 02 00000002 03 27), alone and inside pair / option / list"""
+    P = lambda prim, *args: {'prim': prim, 'args': list(args)} if args else {'prim': prim}
+    nat = P('nat')
+    sigs = [(nat, nat), (P('unit'), P('list', P('operation'))), (P('big_map', nat, nat), nat), (P('ticket', nat), P('unit')),
+            (P('pair', nat, P('sapling_state', {'int': '8'})), P('operation')), (P('contract', nat), P('option', P('big_map', P('string'), P('bytes')))),
+            (P('lambda', P('operation'), P('unit')), P('lambda', P('unit'), P('ticket', P('string'))))]
+    body, lam = [P('FAILWITH')], '0200000002' + '0327'
+    env = gen_env(ctx.rng)
+    for a, b in sigs:
+        L = P('LAMBDA', a, b, body)
+        lt = P('lambda', a, b)
+        for name, code, want in [
+                ('PACK', [L, P('PACK')], ('bytes', '05' + lam)),
+                ('PACK in pair', [L, P('PUSH', nat, {'int': '1'}), P('PAIR'), P('PACK')], ('bytes', '0507070001' + lam)),
+                ('PACK in option', [L, P('SOME'), P('PACK')], ('bytes', '050509' + lam)),
+                ('PACK in list', [P('NIL', lt), L, P('CONS'), P('PACK')], ('bytes', '05020000000' + '7' + lam)),
+                ('FAILWITH', [L, P('FAILWITH')], ('failed',)),
+                ('UNPACK', [P('PUSH', P('bytes'), {'bytes': '05' + lam}), P('UNPACK', lt), P('IF_NONE', [P('PUSH', P('string'), {'string': 'none'}), P('FAILWITH')], [P('PACK')])],
+                 ('bytes', '05' + lam))]:
+            ctx.count('lambda-packability', name)
+            real = interp_run.run_real(code, env)
+            if want[0] == 'bytes':
+                ok = real[0] == 'ok' and len(real[1]) == 1 and real[1][0][1] == {'bytes': want[1]}
+                wanted = 'one bytes value 0x' + want[1]
+            else:
+                ok = real[0] == 'failed'
+                wanted = 'FAILWITH with the lambda'
+            if not ok:
+                ctx.violation('lambda-packability:' + name, f'{mich.to_line(code)} must give {wanted} (a lambda is packable whatever its signature); the interpreter gives {str(real)[:200]}',
+                              {'code': code, 'env': env, 'real': str(real)[:400]})
 
 
 def instrs_in(code):
